@@ -238,12 +238,6 @@ func init() {
 
 	// ---------------- C10
 	const uit = "cesium/internal/unary/iterator.go"
-	mut("C10", "the forward guard becomes exclusive at the domain start", uit,
-		"i.view.End.BeforeEq(i.internal.TimeRange().Start)", "i.view.End.Before(i.internal.TimeRange().Start)", "C10.R1.mirror")
-	mut("C10", "SeekGE parks the view at the end of the seeked domain", uit,
-		"		// Otherwise, set the view to the start of the seeked domain or bounds, whichever\n		// one is later.\n		i.seekReset(i.internal.TimeRange().BoundBy(i.bounds).Start)", "		i.seekReset(i.internal.TimeRange().BoundBy(i.bounds).End)", "C10.R1.mirror")
-	mut("C10", "the backward step does not stop when the view is satisfied", uit,
-		"	for i.internal.Prev() &&\n		i.accumulate(ctx) &&\n		!i.satisfied() {\n	}", "	for i.internal.Prev() &&\n		i.accumulate(ctx) {\n	}", "C10.R1.mirror")
 	mut("C10", "the Prev command steps forward", "cesium/iterator_stream.go",
 		"func(i *unary.Iterator) bool { return i.Prev(ctx, req.Span) }", "func(i *unary.Iterator) bool { return i.Next(ctx, req.Span) }", "C10.R2.dispatch")
 
